@@ -441,7 +441,7 @@ fn build(id: CodecId) -> Model {
         CodecId::Oct => Model {
             id,
             bits: 8,
-            syms: vec![(1, b'+'), (2, b'-'), (3, b'B'), (0x80, b'?'), (0xC1, b'a'), (0xFF, b'Z')],
+            syms: vec![(1, b'+'), (2, b'-'), (3, b'B'), (0x10, b' '), (0x61, b'0'), (0x80, b'?'), (0xC1, b'a'), (0xFF, b'Z')],
             alts: vec![],
             ascii_alias: vec![],
             all_bits: false,
